@@ -397,7 +397,20 @@ def run(chk):
                     ok = a.hi <= s.lo
                 wit = "range %s %s..%s on length %s" % (rk, a, e, s)
                 if ok and "str" in recv_ty and rk != "full":
-                    wit += " (str: index at a char boundary is part of the allow row / C10)"
+                    # a str is cut at character boundaries only: in bounds is not enough.  0 and the string's own length are
+                    # boundaries; anything else (a found index, a clamp) needs its own argument — an allow row or C10
+                    def boundary(iv_b):
+                        return iv_b.exact() == 0
+                    b_ok = True
+                    if rk in ("range", "from"):
+                        b_ok = b_ok and boundary(a)
+                    if rk in ("range", "to"):
+                        b_ok = b_ok and (boundary(e) or (e.exact() is not None and e.exact() == s.exact()))
+                    if not b_ok:
+                        ok = False
+                        wit += " — in bounds, but a str may only be cut at a character boundary and nothing shows this index is one"
+                    else:
+                        wit += " (str: cut at 0 / its own length)"
             else:
                 ity = type_of_operand(b, t["args"][1]) if len(t["args"]) > 1 else ""
                 if ity.strip() == "usize":
